@@ -65,6 +65,9 @@ pub enum HStep {
     /// connection from inside a request): a JSON peer sends that server one request without a
     /// deadline, and what the inner channel hands out is logged.
     InnerNoDeadline,
+    /// The handler panics; the executor contains the panic (the task ends, its future is dropped
+    /// by the unwind), as tokio does for a spawned task.
+    Panic,
 }
 
 #[derive(Clone, Debug, Serialize, Deserialize, PartialEq)]
@@ -442,6 +445,14 @@ pub fn gen(rng: &mut Rng, focus: SFocus) -> ServerScn {
             _ => rng.range(1, 30) as u32,
         };
         faults.push(FaultAt { op, k });
+    }
+    if matches!(focus, SFocus::General | SFocus::Cancel | SFocus::Limit) && !long && subscriber == 0 && rng.chance(60) && !handlers.is_empty() {
+        // one handler panics (after whatever else it does); the executor contains it
+        let ix = rng.below(handlers.len() as u64) as usize;
+        if handlers[ix].run == RunMode::Execute {
+            handlers[ix].steps.retain(|s| *s != HStep::Never);
+            handlers[ix].steps.push(HStep::Panic);
+        }
     }
     ServerScn {
         resp_buf,
@@ -832,6 +843,9 @@ impl Serve for ScriptedServe {
                 }
                 HStep::Never => {
                     futures::future::pending::<()>().await;
+                }
+                HStep::Panic => {
+                    std::panic::panic_any(format!("{} handler of request {}", crate::exec::SCRIPTED_PANIC, self.id));
                 }
                 HStep::InnerNoDeadline => {
                     use futures::StreamExt;
@@ -1850,7 +1864,8 @@ pub fn check(scn: &ServerScn, log: &[Ev], sim: &Sim, node: u8) -> Vec<Violation>
         if let Some((g, gt, false)) = i.hdrop {
             let cancelled = i.cancel_read.map(|c| c < g).unwrap_or(false);
             let expired = gt >= i.deadline;
-            let scripted = matches!(scn.handlers.get(i.tag as usize).map(|h| &h.run), Some(RunMode::DropAfterPolls(_)));
+            let scripted = matches!(scn.handlers.get(i.tag as usize).map(|h| &h.run), Some(RunMode::DropAfterPolls(_)))
+                || scn.handlers.get(i.tag as usize).map(|h| h.steps.contains(&HStep::Panic)).unwrap_or(false);
             let chan_gone = over.map(|o| o < g).unwrap_or(false);
             if !cancelled && !expired && !scripted && !chan_gone {
                 let stray_cancel = log.iter().any(|e| matches!(&e.kind, EvKind::TOp { link: 0, op: Op::Next, res: Res::Ok, item: Some(Item::Cancel { id, .. }) } if *id != i.id && e.seq < g));
